@@ -17,52 +17,9 @@ def bound_terms(e):
 
 def bond_index_rule(chk, src, rule):
     """explicit-list and configuration paths address the same bond, and that bond is the one being truncated"""
-    cc = src.cls("renormalizer/utils/configs.py", "CompressConfig")
-    fx = cc.methods["_fixed_m_trunc"]
-    # ---- bond-index
-    from ..flow import sym_eval
-    import sympy as sp
-    I = sp.Symbol("idx")
-    cp = src.func(MP, "MatrixProduct.compress")
-    sub = [n for n in ast.walk(cp.node) if isinstance(n, ast.Subscript) and unparse(n.value) == "temp_m_trunc"]
-    cfg = [c for c in ast.walk(cp.node) if isinstance(c, ast.Call) and unparse(c.func).endswith("compute_m_trunc")]
-    bi = [s for s in ast.walk(fx.node) if isinstance(s, ast.Assign) and unparse(s.targets[0]) == "bond_idx"]
-    md = [n for n in ast.walk(fx.node) if isinstance(n, ast.Subscript) and unparse(n.value) == "self.max_dims"]
-    if len(sub) != 1 or len(cfg) != 1 or len(md) != 1:
-        raise AnalysisError("compress / _fixed_m_trunc: kept-count paths not recognised")
-    fparams = fx.params()       # self, sigma, idx, left
-    cargs = [unparse(a) for a in cfg[0].args] + [None] * 3
-    for k in cfg[0].keywords:
-        if k.arg in fparams:
-            cargs[fparams.index(k.arg) - 1] = unparse(k.value)
-    # local index names of compress (e.g. `bond_idx = idx + 1 if self.to_right else idx`) are resolved through their single definition
-    local_defs = {}
-    for st_ in ast.walk(cp.node):
-        if isinstance(st_, ast.Assign) and len(st_.targets) == 1 and isinstance(st_.targets[0], ast.Name):
-            local_defs.setdefault(st_.targets[0].id, []).append(st_.value)
-    for direction in (True, False):
-        cenv = {"idx": I}
-        for nm, vals in local_defs.items():
-            if len(vals) == 1 and nm != "idx":
-                try:
-                    cenv[nm] = sym_eval(vals[0], {"idx": I}, {"self.to_right": direction})
-                except AnalysisError:
-                    pass
-        explicit = sym_eval(sub[0].slice, cenv, {"self.to_right": direction})
-        # config path: compute_m_trunc(sigma, <site>, <left>) -> _fixed_m_trunc(sigma, idx, left) -> max_dims[bond]
-        site = sym_eval(cfg[0].args[1], cenv, {"self.to_right": direction})
-        from ..flow import bool_eval
-        left = bool_eval(ast.parse(cargs[2], mode="eval").body, {"self.to_right": direction})
-        env = {"idx": site}
-        if bi:
-            env["bond_idx"] = sym_eval(bi[0].value, {"idx": site}, {"left": left})
-        config = sym_eval(md[0].slice, env, {"left": left})
-        chk.ob(rule, f"compress[to_right={direction}]: explicit list vs config path", sp.simplify(explicit - config) == 0, cp.where,
-               {"explicit": str(explicit), "config": str(config)}, "same bond", line=cp.node.lineno,
-               detail="an explicit per-bond list and CompressConfig.max_dims must limit the same bond for a given site and sweep direction")
-        want = I + 1 if direction else I
-        chk.ob(rule, f"compress[to_right={direction}]: bond on the sweep side of site idx", sp.simplify(explicit - want) == 0, cp.where, str(explicit), str(want),
-               line=cp.node.lineno, detail="sweeping right the new bond is idx+1, sweeping left it is idx")
+    # ---- chain compression: abstract run (chain_rules.py)
+    from .chain_rules import compress_bond_rule
+    compress_bond_rule(chk, src, rule)
     up = src.func(MP, "MatrixProduct._update_mps")
     calls = [c for c in ast.walk(up.node) if isinstance(c, ast.Call) and unparse(c.func).endswith("compute_m_trunc")]
     seen = {}
@@ -177,7 +134,7 @@ def run(chk):
     chk.rule("sorted-before-prefix", "values of a full (blocked, unsorted) svd_qn never flow into _update_ms / truncate_tensors / a prefix slice", 4)
     chk.rule("svd-sort", "economic svd_qn applies one descending argsort to u, v, s and both label lists", 5)
     chk.rule("co-truncate", "u, s, v and both label lists are cut by one bound / selected by one index", 4)
-    chk.rule("trunc-bound", "kept count <= per-bond limit and <= len(sigma) (fixed, both, explicit path)", 5)
+    chk.rule("trunc-bound", "compute_m_trunc: kept count = min over the bounds its criterion names; unknown criteria rejected (abstract run)", 4)
     chk.rule("bond-index", "explicit-list path and config path select the same bond for (site, direction)", 6)
     chk.rule("select-sorts", "select_basis ranks candidates by descending singular value and takes at most Mmax", 3)
 
@@ -270,10 +227,6 @@ def run(chk):
     # ---- trunc-bound
     cc = src.cls(CONFIGS, "CompressConfig")
     fx = cc.methods["_fixed_m_trunc"]
-    rets = [r.value for r in ast.walk(fx.node) if isinstance(r, ast.Return)]
-    t = bound_terms(rets[0]) if len(rets) == 1 else None
-    chk.ob("trunc-bound", "_fixed_m_trunc", t is not None and any(x.startswith("self.max_dims[") for x in t) and "len(sigma)" in t, fx.where, t or unparse(rets[0]),
-           "min(self.max_dims[bond], len(sigma))", line=fx.node.lineno, detail="the fixed criterion must not exceed the per-bond maximum nor the number of singular values")
     cm = cc.methods["compute_m_trunc"]
     # abstract run of the dispatch for every criterion: the result is a min over a set of bounds (MinSet); unknown criteria must be rejected
     from ..syminterp import SymInterp, Sym
@@ -304,18 +257,10 @@ def run(chk):
                       "; a missing bound lets the bond dimension exceed the configured limit (or ignores the threshold)")
     els = [s for s in ast.walk(cm.node) if isinstance(s, ast.Assert) and unparse(s.test) == "False"]
     chk.ob("trunc-bound", "compute_m_trunc: unknown criteria rejected", len(els) == 1, cm.where, len(els), 1)
-    # explicit path clamps: every function with a temp_m_trunc / m parameter path ends in min(m_trunc, len(s))
-    for rel, qual, sname in ((MP, "MatrixProduct.compress", "sigma"), (TREE, "TTNS.compress_node", "s"), (TREE, "TTNS.update_2site", "s")):
-        fi = src.func(rel, qual)
-        clamps = []
-        for n in ast.walk(fi.node):
-            if isinstance(n, ast.Assign) and unparse(n.targets[0]) == "m_trunc":
-                t = bound_terms(n.value)
-                if t is not None:
-                    clamps.append(t)
-        ok = any("m_trunc" in t and f"len({sname})" in t for t in clamps)
-        chk.ob("trunc-bound", f"{qual}: explicit limit clamped by len({sname})", ok, fi.where, clamps, f"m_trunc = min(m_trunc, len({sname}))", line=fi.node.lineno,
-               detail="an explicit temporary limit larger than the number of singular values must be clamped")
+    # the per-bond limit, the cap by the number of singular values and the explicit-limit paths of compress / compress_node / update_2site are decided by abstract runs
+    # (bond-index: chain_rules.compress_bond_rule; decomposition-axes: tree_rules)
+    from . import tree_rules as TR
+    TR.decomposition_axes(chk, src, topologies=("generic",))
     bond_index_rule(chk, src, "bond-index")
 
 
